@@ -46,7 +46,7 @@ def main():
     ap.add_argument("-j", type=int, default=4)
     ap.add_argument("pattern", nargs="?", default="*")
     a = ap.parse_args()
-    names = sorted(n for n in os.listdir(os.path.join(VERIF, "seeded")) if fnmatch.fnmatch(n, a.pattern))
+    names = sorted(n for n in os.listdir(os.path.join(VERIF, "seeded")) if fnmatch.fnmatch(n, a.pattern) and os.path.isfile(os.path.join(VERIF, "seeded", n, "patch.diff")))
     bad = 0
     with ThreadPoolExecutor(max_workers=a.j) as ex:
         for name, status, info in ex.map(one, names):
